@@ -3,7 +3,8 @@
 are no longer caught. Works on a scratch git worktree of /repo (VERIF_REPO / VERIF_WORK / VERIF_EVIDENCE point the checks at it), so
 it can run while /repo itself is used; the worktree is removed at the end. usage: regress_seeds.py [id ...]"""
 import glob, json, os, re, shutil, subprocess, sys
-ids = sys.argv[1:] or sorted(os.path.basename(os.path.dirname(p)) for p in glob.glob("/verif/seeded/*/meta.json"))
+HOME = os.path.dirname(os.path.dirname(os.path.abspath(__file__)))  # the checkout this script belongs to (a `vp run` snapshot or /verif)
+ids = sys.argv[1:] or sorted(os.path.basename(os.path.dirname(p)) for p in glob.glob(HOME + "/seeded/*/meta.json"))
 WT, WORK, EV = "/tmp/regress_repo", "/tmp/regress_work", "/tmp/regress_evidence"
 import fcntl
 _lock = open(WT + ".lock", "w")
@@ -14,10 +15,10 @@ env = dict(os.environ, VERIF_REPO=WT, VERIF_WORK=WORK, VERIF_EVIDENCE=EV)
 bad = []
 try:
     for sid in ids:
-        m = json.load(open(f"/verif/seeded/{sid}/meta.json"))
+        m = json.load(open(HOME + f"/seeded/{sid}/meta.json"))
         txt = " ; ".join(m.get("caught_by") or [])
         checks = sorted(set(re.findall(r"\b(C\d\d) [a-z]+\.[a-z-]+", txt))) or [m["property"]]
-        patch = f"/verif/seeded/{sid}/patch.diff"
+        patch = HOME + f"/seeded/{sid}/patch.diff"
         r = subprocess.run(["git", "-C", WT, "apply", patch], capture_output=True, text=True)
         if r.returncode != 0:
             print(f"{sid}: patch no longer applies ({r.stderr.strip()[:100]})", flush=True)
@@ -26,7 +27,7 @@ try:
         try:
             res = {}
             for c in checks:
-                p = subprocess.run(["/verif/vcheck", c], capture_output=True, text=True, env=env)
+                p = subprocess.run([HOME + "/vcheck", c], capture_output=True, text=True, env=env)
                 res[c] = p.returncode
             ok = any(v == 1 for v in res.values())
             print(f"{sid}: {res} {'caught' if ok else 'NOT CAUGHT'}", flush=True)
